@@ -425,6 +425,9 @@ class Buildable(Generic[T], metaclass=abc.ABCMeta):
         include_no_value=True,
     )
     var_positional_start = self.__signature_info__.var_positional_start
+    if var_positional_start is None:
+      # No *args: every index addresses a non-variadic positional parameter.
+      var_positional_start = len(all_positional_args)
     if isinstance(key, slice):
       key = key.indices(len(all_positional_args))
       indices = list(range(*key))
